@@ -45,6 +45,9 @@ def eval_programs(progs):
 
 # ------------------------------------------------------------------ the property, on one executed program
 
+# `array.new` with a length the engine refuses (Vec.withCapacity / growth with a huge size): resource
+# exhaustion, classed with call-stack exhaustion
+RESOURCE_TRAPS = ("trap:requested new array is too large",)
 ARITH_TRAPS = ("trap:divide by zero", "trap:remainder by zero", "trap:divide result unrepresentable",
                "trap:integer overflow", "trap:integer divide by zero")
 VEC_PANICS = ("panic:Vec index out of bounds", "panic:pop from empty Vec")
@@ -54,7 +57,7 @@ def classify_end(end, backend):
     """None if the ending is one the property allows, else what went wrong."""
     if end in ("ok", "stack-overflow", "timeout", "skipped", "no-node") or end.startswith("no-node"):
         return None
-    if end in VEC_PANICS or end in ARITH_TRAPS:
+    if end in VEC_PANICS or end in ARITH_TRAPS or end in RESOURCE_TRAPS:
         return None
     if end == "trap:unreachable" and backend == "wasm":
         return None      # the `unreachable` of a failing Vec.pop/get/set (libsam.wat) before fix 361669d
@@ -111,6 +114,18 @@ def all_open_findings():
         return {}
 
 
+JS_RESERVED = ("default|new|delete|var|void|typeof|switch|case|with|yield|enum|export|in|do|for|while|try|catch|throw|"
+               "instanceof|null|super|const|continue|break|finally|debugger")
+RESERVED_BINDER = re.compile(r"(?:[(,]\s*(?:%s)\s*:)|(?:\blet\s+(?:%s)\b)" % (JS_RESERVED, JS_RESERVED))
+_std_text = []
+
+
+def std_text():
+    if not _std_text:
+        _std_text.append("\n".join(open(f, encoding="utf-8").read() for f in sorted(glob.glob(os.path.join(common.REPO, "std", "*.sam")))))
+    return _std_text[0]
+
+
 OCTAL = re.compile(r'\\0[0-9]')
 STRLIT = re.compile(r'"(?:[^"\\\n]|\\.)*"')
 
@@ -141,6 +156,8 @@ def match_known(open_f, sources, kind, detail):
         if "unknown type: failed to find name" in detail and "C03-F5" in open_f:
             return "C03-F5"
     if kind == "ts-run":
+        if "Expected ident" in detail and "C03-F6" in open_f and RESERVED_BINDER.search(mask_noncode(text + "\n" + std_text())):
+            return "C03-F6"
         if any(OCTAL.search(l) for l in lits) and "octal" in detail.lower() and "C03-F4" in open_f:
             return "C03-F4"
         if any(("`" in l or "${" in l) for l in lits) and "C04-F3" in open_f:
